@@ -210,6 +210,8 @@ package anthropic
 //@   ensures res != nil ==> evBroken
 //@   loop 1 invariant streamInv(state) && (evBroken || evStarted) && (old(evBroken) ==> evBroken)
 //@   loop 1 invariant evBroken || (textOut == old(textOut) && (old(argsOut) == old(argsIn) ==> argsOut == argsIn))
+//@   at call initializeToolBlock 1 assert data.id != "" && data.name != ""
+//@   at call sendToolArgumentsDelta 1 assert data.arguments != ""
 //@   at call sendToolArgumentsDelta 1 assume evBroken || (state.currentBlock != nil && state.currentBlock.Type == "tool_use")
 //@   ensures streamInv(state)
 
